@@ -513,10 +513,25 @@ def extra_C06(rep, ctx):
     tables.c06_widths(rep, ctx.facts)
     float_forms(rep, ctx, ('C04', 'C05'))
     digit_rendering(rep, ctx)
+    meridian_map(rep, ctx)
+
+
+def meridian_map(rep, ctx):
+    """stage E1i (sda/hour12.py): the exact 12-hour -> 24-hour map of NaiveDateTime::adjust_hour12"""
+    if ctx.cfg in pipeline.ONLY:
+        return
+    d = pipeline.load_json(pipeline.ensure_stage('e1i', ctx.cfg))
+    for r in d['records']:
+        key = f"R-ens|format::NaiveDateTime::adjust_hour12|{r['clause']}"
+        rep.ob(key, r['ok'], f"R-ens format::NaiveDateTime::adjust_hour12: {r['clause']} -- {r['detail'][:300]}", {'hour12': r, 'config': ctx.cfg}, rule='E1i-meridian-map')
+    for t in d['notes']:
+        rep.notes.append(f"[{ctx.cfg}] E1i (undecided, not a violation): {t}")
+    rep.extra.setdefault('meridian_map', {})[ctx.cfg] = {'cases': d['cases'], 'records': len(d['records'])}
 
 
 def extra_C05(rep, ctx):
     float_forms(rep, ctx, ('C05',))
+    meridian_map(rep, ctx)
 
 
 def digit_rendering(rep, ctx):
